@@ -86,7 +86,7 @@ R.contract(
         "other_properties_untouched": "all(n in schema.get('properties', {}) for n in old(list(schema.get('properties', {}))) if n not in ghost('ro'))",
     },
 )
-R.contract(CV + "is_read_only", prop="C01", args={"schema": OneOf(Bool, Prop)},
+R.contract(CV + "is_read_only", prop="C01", args={"schema": OneOf(Bool, Prop)}, returns=Bool,
            ensures={"def": "iff(result, isinstance(schema, dict) and schema.get('readOnly', False) is True)"}, inline=True)
 
 
